@@ -42,6 +42,13 @@ pub fn priv_ip(i: usize) -> Ipv4Addr {
 
 /// A routable (non-exempt for BEP42) address.
 pub fn pub_ip(rng: &mut Rng) -> Ipv4Addr {
+    // 1 in 10: an address right next to, or easily mistaken for, an exempt range - carrier-grade NAT
+    // (100.64/10), the neighbours of the private / link-local / loopback blocks, documentation and
+    // benchmarking ranges. BEP42 exempts private, link-local and loopback addresses only.
+    if rng.chance(1, 10) {
+        let (a, b) = *rng.pick(&[(100u8, 64u8), (100, 100), (100, 127), (172, 15), (172, 32), (192, 167), (192, 169), (169, 253), (169, 255), (11, 0), (9, 255), (126, 255), (128, 0), (192, 0), (198, 18), (198, 51), (203, 0)]);
+        return Ipv4Addr::new(a, b, rng.below(256) as u8, rng.range(1, 254) as u8);
+    }
     loop {
         let a = rng.range(11, 223) as u8;
         let b = rng.below(256) as u8;
